@@ -64,6 +64,36 @@ func inferSessionInfo(p *Program) *sessionInfo {
 				}
 			}
 		})
+		// or the session comes from a constructor of the package and is handed on
+		if si.typ == nil {
+			instrsOf(f, func(_ *ssa.BasicBlock, in ssa.Instruction) {
+				c, ok := in.(*ssa.Call)
+				if !ok || si.typ != nil {
+					return
+				}
+				g := calleeOf(c)
+				if g == nil || !trieScope(g) {
+					return
+				}
+				n := namedOf(c.Type())
+				if n == nil || n.Obj().Pkg() == nil || n.Obj().Pkg().Path() != triePath {
+					return
+				}
+				if _, isPtr := c.Type().Underlying().(*types.Pointer); !isPtr {
+					return
+				}
+				if _, isStruct := n.Underlying().(*types.Struct); !isStruct {
+					return
+				}
+				for _, ref := range *c.Referrers() {
+					if c2, ok := ref.(ssa.CallInstruction); ok {
+						if g2 := calleeOf(c2); g2 != nil && trieScope(g2) {
+							si.typ = n
+						}
+					}
+				}
+			})
+		}
 		for _, c := range callsIn(f) {
 			if g := calleeOf(c); g != nil && trieScope(g) {
 				find(g, d+1)
